@@ -7,7 +7,7 @@ CHECK = {
     "flavours": ["asan"],
     "quick": {"shards": 16, "timeout": 1800},
     "thorough": {"shards": 16, "timeout": 7200},
-    "required_categories": ["icp_zero_displacement", "icp_envelope_face_edge_corner", "icp_known_corner_witness", "icp_known_inaccurate_witness",
+    "required_categories": ["fp_traps_unmasked_around_library_call", "icp_zero_displacement", "icp_envelope_face_edge_corner", "icp_known_corner_witness", "icp_known_inaccurate_witness",
                             "icp_uniform_interior", "icp_boundary_biased", "icp_around_known_corner",
                             "icp_Cartesian2d", "icp_Homogeneous2d", "ransac_no_outliers", "ransac_outliers_5_to_30pct", "ransac_coherent_outlier_group",
                             "ransac_pairs_index_aligned", "ransac_pairs_permuted_target", "ransac_pairs_permuted_and_shuffled_list",
